@@ -30,6 +30,7 @@ func Exec(s core.Schedule) *core.Outcome {
 		LogTimeoutMs: cfg.LogTimeoutMs, RecoveryTypes: cfg.RecoveryTypes, CutPermille: cfg.CutPermille})
 	r.w = w
 	w.u.BusyPermille, w.u.DropPermille, w.u.TimeoutLostPermille, w.u.TimeoutAppliedPermille = cfg.BusyPermille, cfg.DropPermille, cfg.TOLostPermille, cfg.TOAppliedPermille
+	w.u.TimeoutLatePermille, w.u.TimeoutLateMaxMs = cfg.TOLatePermille, cfg.TOLateMaxMs
 	if os.Getenv("VERIF_LOG") == "2" || os.Getenv("VERIF_LOG") == "4" {
 		w.u.OnEvent = func(e string) {
 			fmt.Fprintf(os.Stderr, "EVT %s %s draws=%d\n", time.Now().Format("04:05.000"), e, core.RuntimeDraws())
@@ -210,6 +211,7 @@ func (r *run) finalLiveness() {
 		}
 	}
 	w.u.BusyPermille, w.u.DropPermille, w.u.TimeoutLostPermille, w.u.TimeoutAppliedPermille = 0, 0, 0, 0
+	w.u.TimeoutLatePermille = 0
 	w.u.CatchUpAll()
 	settle()
 	c := r.cfg
@@ -322,7 +324,7 @@ func (r *run) finish() {
 	out := r.out
 	for k, v := range r.w.u.Stats() {
 		switch k {
-		case "snapshot-install", "log-compaction", "leader-elected", "leader-lost", "proposal-busy", "proposal-dropped", "proposal-timeout-lost", "proposal-timeout-applied", "proposal-no-leader", "proposal-on-stalled-replica":
+		case "snapshot-install", "log-compaction", "leader-elected", "leader-lost", "proposal-busy", "proposal-dropped", "proposal-timeout-lost", "proposal-timeout-applied", "proposal-timeout-late", "proposal-no-leader", "proposal-on-stalled-replica":
 			out.Faults["raft-"+k] += v
 		default:
 			out.Probes["raft-"+k] += v
